@@ -334,6 +334,25 @@ def check_case(case):
             break
     if not cnarr.data.equals(before_bins) or not segarr.data.equals(before_segs):
         bad("input-modified", "segmetrics/bintest changed their inputs")
+    # ---- command-line tier (a quarter of the cases): `cnvkit.py segmetrics` / `bintest` on the written tables = the
+    # library calls on the same files
+    if gen.pick(case, "cli", 4) == 0 and not out:
+        import shutil
+        import tempfile
+
+        from vk import cli
+
+        d = tempfile.mkdtemp(prefix="vk17.")
+        try:
+            diff = cli.segmetrics_diff(cnarr, segarr, d, case["loc"], case["spread"], case["interval"], case["alpha"], case["boots"],
+                                       case["smoothed"], case["skip_low"])
+            if diff:
+                bad("cli:segmetrics", diff)
+            diff = cli.bintest_diff(cnarr, segarr, d, case["bt_alpha"], case["target_only"])
+            if diff:
+                bad("cli:bintest", diff)
+        finally:
+            shutil.rmtree(d, ignore_errors=True)
     return out
 
 
